@@ -220,49 +220,57 @@ class KVBag:
 
 
 @unit("queues.PriorityQueue", props=["C04", "C01", "C07"],
-      functions=[(REL, "PriorityQueue.__init__"), (REL, "PriorityQueue._put"), (REL, "PriorityQueue._get"), (REL, "PriorityQueue._qsize"),
-                 (REL, "KeyValuePair")],
+      functions=[(REL, "PriorityQueue.__init__"), (REL, "PriorityQueue._put"), (REL, "PriorityQueue._get"), (REL, "PriorityQueue._qsize")],
       assumptions=["T6 heapify permutes; heappush adds exactly its argument; heappop removes and returns one (minimal) element",
-                   "KeyValuePair is the real class of the working tree, run natively"], min_obligations=6)
+                   "the heap-entry class (KeyValuePair at the pinned commit) is whatever the real module defines; it is executed natively and only "
+                   "characterised by what it does: _get recovers the item, '<' follows the priorities and never compares the items"], min_obligations=6)
 def priority_queue_unit(ctx):
+    from ujvc.units import base_env
+
+    log = []
+    vc = VC(ctx)
+    env = _env(ctx, vc, log)
+    # classes of the real module (the heap entry class, whatever it is called) are run natively
     from ujvc.z3env import ensure_repo_first
 
     ensure_repo_first()
     import importlib
 
     sched = importlib.import_module("uberjob._execution.scheduler")
-    KVP = sched.KeyValuePair
-    log = []
-    vc = VC(ctx)
-    env = _env(ctx, vc, log)
-    env["KeyValuePair"] = KVP
+    for k_, v_ in vars(sched).items():
+        if isinstance(v_, type) and v_.__module__ == sched.__name__ and k_ not in ("RandomQueue", "PriorityQueue") and k_ not in env:
+            env[k_] = v_
     prio_calls = []
 
     def priority(x):
         prio_calls.append(x)
-        return ("prio", x)
+        return ("prio", id(x))
+
+    pop_script = []
 
     def heapify(q):
         log.append(("heapify", q))
 
     def heappush(q, e):
         log.append(("heappush", q, e))
-        if isinstance(q, KVBag) and isinstance(e, KVP) and isinstance(e.value, SNode):
-            q.mult = z3.Store(q.mult, e.value.t, z3.Select(q.mult, e.value.t) + 1)
-            q.length = q.length + 1
 
     def heappop(q):
-        if not isinstance(q, KVBag):
-            raise Unsupported("heappop of something else")
-        x = ctx.fresh(Node, "popped")
-        ctx.assume(z3.Select(q.mult, x) >= 1)
-        q.mult = z3.Store(q.mult, x, z3.Select(q.mult, x) - 1)
-        q.length = q.length - 1
-        e = KVP(("prio", x), SNode(x))
-        log.append(("heappop", q, e))
-        return e
+        if pop_script:
+            e = pop_script.pop(0)
+            log.append(("heappop", q, e))
+            return e
+        raise Unsupported("heappop without a scripted entry")
 
     env.update(heapify=heapify, heappush=heappush, heappop=heappop)
+    getm = get(REL, "PriorityQueue._get").compile_into(env)
+
+    def item_of(entry):
+        """the item a heap entry stands for: what the real _get returns when heappop hands that entry back"""
+        s2 = _Self()
+        s2.queue = "HEAP"
+        pop_script.append(entry)
+        return getm(s2)
+
     which = ctx.choose(4, "method")
     s = _Self()
     if which == 0:
@@ -270,7 +278,7 @@ def priority_queue_unit(ctx):
         made = []
 
         def comp(vc_, key, elt, cond):
-            # [KeyValuePair(priority(item), item) for item in initial_items]: generic element
+            # [<entry>(priority(item), item) for item in initial_items]: generic element
             if cond is not None:
                 raise Unsupported("filtered comprehension")
             x = SNode(ctx.fresh(Node, "item"))
@@ -281,10 +289,9 @@ def priority_queue_unit(ctx):
         items.__vc_comp__ = comp
         init = get(REL, "PriorityQueue.__init__", cut_comps=True).compile_into(env)
         init(s, items, priority)
-        ok = (len(made) == 1 and isinstance(made[0][1], KVP) and made[0][1].value is made[0][0]
-              and made[0][1].key == ("prio", made[0][0]))
-        ctx.check("__init__:one-KeyValuePair(priority(item),item)-per-initial-item", bool(ok))
-        ctx.check("__init__:queue-holds-exactly-those-pairs", bool(isinstance(getattr(s, "queue", None), KVBag)) and s.queue.mult == items.mult)
+        ok = len(made) == 1 and prio_calls == [made[0][0]] and item_of(made[0][1]) is made[0][0]
+        ctx.check("__init__:one-heap-entry-per-initial-item(made-with-priority(item);_get-recovers-the-item)", bool(ok))
+        ctx.check("__init__:queue-holds-exactly-those-entries", bool(isinstance(getattr(s, "queue", None), KVBag)) and s.queue.mult == items.mult)
         ctx.check("__init__:heapified-and-base-initialised", bool(any(e[0] == "heapify" and e[1] is s.queue for e in log) and log[0][0] == "super.__init__"))
         u = getattr(s, "unfinished_tasks", None)
         ctx.check("__init__:unfinished_tasks==number-of-items", bool(isinstance(u, SInt)) and u.t == items.length, props=["C07"])
@@ -293,29 +300,47 @@ def priority_queue_unit(ctx):
     m0, n0 = ctx.fresh(G.MapNI, "mult"), ctx.fresh(IntS, "n")
     s.queue = KVBag(ctx, m0, n0)
     s.priority = priority
+    put = get(REL, "PriorityQueue._put").compile_into(env)
     if which == 1:
-        put = get(REL, "PriorityQueue._put").compile_into(env)
         x = ctx.fresh(Node, "item")
         xo = SNode(x)
         put(s, xo)
         pushes = [e for e in log if e[0] == "heappush"]
-        ok = len(pushes) == 1 and pushes[0][1] is s.queue and isinstance(pushes[0][2], KVP) and pushes[0][2].value is xo and pushes[0][2].key == ("prio", xo)
-        ctx.check("_put:pushes-exactly-KeyValuePair(priority(item),item)-onto-its-own-heap", bool(ok))
-        ctx.check("_put:bag-grows-by-exactly-the-item", z3.And(s.queue.mult == z3.Store(m0, x, z3.Select(m0, x) + 1), s.queue.length == n0 + 1))
+        ok = len(pushes) == 1 and pushes[0][1] is s.queue and prio_calls == [xo] and item_of(pushes[0][2]) is xo
+        ctx.check("_put:pushes-exactly-one-entry-for-the-item(made-with-priority(item))-onto-its-own-heap", bool(ok))
         return "put"
     if which == 2:
-        getm = get(REL, "PriorityQueue._get").compile_into(env)
+        # round trip through the heap: whatever entry _put pushed, _get returns its item when heappop hands it back
+        xo = SNode(ctx.fresh(Node, "item"))
+        put(s, xo)
+        pushes = [e for e in log if e[0] == "heappush"]
+        if len(pushes) != 1:
+            raise Unsupported("_put does not push exactly one entry")
+        pop_script.append(pushes[0][2])
         r = getm(s)
         pops = [e for e in log if e[0] == "heappop"]
-        ok = len(pops) == 1 and pops[0][1] is s.queue and r is pops[0][2].value
-        ctx.check("_get:returns-the-value-of-exactly-the-pair-it-popped-from-its-own-heap", bool(ok))
+        ok = len(pops) == 1 and pops[0][1] is s.queue and r is xo
+        ctx.check("_get:returns-the-item-of-exactly-the-entry-it-popped-from-its-own-heap", bool(ok))
         return "get"
     qs = get(REL, "PriorityQueue._qsize").compile_into(env)
     r = qs(s)
     ctx.check("_qsize:is-the-number-of-items", bool(isinstance(r, SInt)) and r.t == n0)
-    # KeyValuePair ordering uses keys only (real class)
-    a, b = KVP(1, object()), KVP(2, object())
-    ctx.check("KeyValuePair:ordered-by-key-only", bool(a < b and not (b < a) and a == KVP(1, object()) and a.value is not None))
+    # ordering of the heap entries: by priority only - the items themselves (opaque objects) are never compared, ties do not raise
+    prios = {}
+    s.priority = lambda it: prios[id(it)]
+    ents = []
+    for pr in (1, 2, 1):
+        it = object()
+        prios[id(it)] = pr
+        del log[:]
+        put(s, it)
+        ents.append([e for e in log if e[0] == "heappush"][0][2])
+    a, b, a2 = ents
+    try:
+        ok = (a < b) and not (b < a) and not (a < a2) and not (a2 < a)
+    except TypeError as e:
+        ok = False
+    ctx.check("heap-entries:ordered-by-priority-only(items-never-compared;ties-do-not-raise)", bool(ok))
     return "qsize"
 
 
